@@ -268,6 +268,7 @@ let exec (a : string array) (_input : int array ref) (bytes : string -> int arra
       let prev_unused = ref true in
       let done_all = ref true in
       let atr = Buffer.create 64 in
+      let drain_mark = ref None in
       (* the unconsumed input as a shared list: a chunk that covers all of it costs nothing *)
       let suffix = ref (nlist_of_array input) in
       let rec drop k l = if k = 0 then l else (match l with [] -> [] | _ :: t -> drop (k - 1) t) in
@@ -307,8 +308,20 @@ let exec (a : string array) (_input : int array ref) (bytes : string -> int arra
                if !calls <= 40 then begin
                  Buffer.add_string tr (Printf.sprintf "%d/%d/%d/%d;" fl st ic oc);
                  Buffer.add_string atr (Printf.sprintf "%d:%d;" !in_off (int_of_n cc'.c_adler)) end;
-               if fl >= 1 && fl <= 3 && !prev_unused && ic = clen && oc < nout && Buffer.length marks < 400 then
+               if fl >= 1 && fl <= 3 && !prev_unused && ic = clen && oc < nout && Buffer.length marks < 400 then begin
                  Buffer.add_string marks (Printf.sprintf "%d:%d:%d;" fl !in_off (Buffer.length out));
+                 drain_mark := None end
+               else if fl >= 1 && fl <= 3 && !prev_unused && ic = clen && oc = nout then
+                 drain_mark := Some (fl, !in_off)
+               else (match !drain_mark with
+                 | Some (f0, i0) ->
+                     if ic = 0 && !in_off = i0 && fl = f0 then begin
+                       if oc < nout then begin
+                         if Buffer.length marks < 400 then
+                           Buffer.add_string marks (Printf.sprintf "%d:%d:%d;" (f0 + 10) i0 (Buffer.length out));
+                         drain_mark := None end end
+                     else drain_mark := None
+                 | None -> ());
                prev_unused := oc < nout;
                if st = 1 || (st < 0 && not (stream && st = -5)) then begin why := "end"; done_all := (ic = clen); raise Exit end;
                if ic = 0 && oc = 0 then incr stall else stall := 0;
